@@ -4,6 +4,8 @@ package absnfs
 // durability obligation is asserted at the moment of the reply; every later
 // crash point follows from it).
 
+import "syscall"
+
 func init() {
 	vpRegister("VPH_C22_write_stable", VPH_C22_write_stable)
 	vpRegister("VPH_C22_commit", VPH_C22_commit)
@@ -28,6 +30,11 @@ func VPH_C22_write_stable() {
 	n.durable = append([]byte(nil), n.data...) // everything so far is on stable storage
 	env := vpServer(fs, ExportOptions{})
 	h := env.handleFor("/d/x")
+	// the backend's fsync may fail (disk full, I/O error): data whose sync failed is not stable
+	if vpBool("sync-fails") {
+		vpReach("sync-fault")
+		fs.failOp, fs.failErr = "Sync", vpErr("sync", "/d/x", syscall.EIO)
+	}
 	off := vpChoose("offset", 0, 12)
 	cnt := vpChoose("count", 1, 4)
 	data := vpBytes("data", cnt)
@@ -66,6 +73,10 @@ func VPH_C22_commit() {
 	n.durable = []byte("0123") // the tail was written UNSTABLE earlier and is not yet on stable storage
 	env := vpServer(fs, ExportOptions{})
 	h := env.handleFor("/d/x")
+	if vpBool("sync-fails") {
+		vpReach("sync-fault")
+		fs.failOp, fs.failErr = "Sync", vpErr("sync", "/d/x", syscall.EIO)
+	}
 	var b vpBuf
 	b.fh(h).u64(vpU64("offset")).u32(vpU32("count"))
 	reply := env.call(NFSPROC3_COMMIT, b.Bytes())
